@@ -354,6 +354,7 @@ RULES = {
     'validatex': 'small-scope exhaustive: every sequence of up to 2 (thorough: 3) atoms in one list field at a time (10 request-header atoms x credentialed, 8 method atoms, 7 response-header atoms x credentialed, 10 origin atoms (up to 2) x credentialed x PNA modes x both tolerate switches) and every combination of 7 max-age and 9 status values, through NewMiddleware; distinct by case hash',
     'servex': 'small-scope exhaustive: 8 configurations (one per decision regime) x method {OPTIONS, GET, options} x 7 Origin atoms x 8 ACRM atoms x 6 (thorough: 9) ACRH atoms x 3 ACRPN atoms x upstream Vary or not x debug; non-trivial = the middleware wrote a status or an Access-Control-* header; distinct by case hash',
     'ip6x': 'small-scope exhaustive on IPv6 text between brackets: every sequence of up to 3 (thorough: 4) tokens from {0 1 12 abcd ABCD 00 0abc 12345 g : :: . 1.2.3.4 255 256 01 % eth0 ffff 7f00}, and every address text of up to 8 fields over {0, 1, ffff} with `::` at every position or absent, with and without an IPv4 tail, through ParsePattern (and Parse); the model answers with its own model of net/netip and the driver compares that model with the library on every reported host; distinct by case hash',
+    'historyx': 'small-scope exhaustive: every sequence of up to 3 (thorough: 4) operations from {SetDebug(true), SetDebug(false), Reconfigure(nil), Reconfigure(A), Reconfigure(B), Reconfigure(invalid), Reconfigure(Config())}, from the zero value (whose handler is wrapped while it is passthrough) and from NewMiddleware(A), with Config(), a preflight failing at the method step, a succeeding preflight and an actual request after every operation; distinct by case hash',
     'history': 'random operation sequences (SetDebug, Reconfigure nil/valid/invalid/Config()) over 1-3 middlewares with probes after every step; non-trivial = state-changing or observing operation; distinct by case hash',
 }
 
@@ -427,32 +428,32 @@ PROPS = {
                       # the decision as the middleware itself takes it (the tree as validation built it), seen through the CORS headers
                       C('serve', 'c03', 'tie'), C('servex', 'c03', 'tie')]),
     # "every accepted configuration" includes the ones put in force by Reconfigure on a middleware whose handlers were wrapped earlier
-    'C02': dict(suites=[('intents', 6000, 200000), ('serve', 3000, 80000), ('tree', 500, 20000), ('acrh', 1000, 40000), ('history', 100, 3000), ('acrhx', 4, 5), ('servex', 1, 2), ('history', 60, 1500, ('-adversarial',))],
+    'C02': dict(suites=[('intents', 6000, 200000), ('serve', 3000, 80000), ('tree', 500, 20000), ('acrh', 1000, 40000), ('history', 100, 3000), ('acrhx', 4, 5), ('servex', 1, 2), ('history', 60, 1500, ('-adversarial',)), ('historyx', 3, 4)],
                 cmps=[C('intents', 'firsttoken', 'spec'), C('serve', 'full', 'tie'), C('tree', 'treebits', 'spec'), C('acrh', 'full', 'spec'), C('history', 'dec', 'spec'),
-                      C('acrhx', 'full', 'spec'), C('servex', 'full', 'tie')]),
+                      C('acrhx', 'full', 'spec'), C('servex', 'full', 'tie'), C('historyx', 'dec', 'spec')]),
     # C03 speaks of *allowed* origins: the ties of the two origin-decision components (tree, request-side lexer) belong to it
     # ... and "the configuration" is the one in force after any history of Reconfigure calls, also for handlers wrapped earlier
-    'C03': dict(suites=[('serve', 6000, 150000), ('tree', 800, 30000), ('lex', 800, 30000), ('history', 120, 3000), ('treex', 3, 4), ('lexx', 3, 4), ('servex', 1, 2)],
+    'C03': dict(suites=[('serve', 6000, 150000), ('tree', 800, 30000), ('lex', 800, 30000), ('history', 120, 3000), ('treex', 3, 4), ('lexx', 3, 4), ('servex', 1, 2), ('historyx', 3, 4)],
                 cmps=[C('serve', 'c03', 'tie'), C('tree', 'treebits', 'spec'), C('lex', 'full', 'tie', only=('parse',)), C('history', 'c03', 'tie'),
-                      C('treex', 'treebits', 'spec'), C('lexx', 'full', 'tie', only=('parse',)), C('servex', 'c03', 'tie')]),
+                      C('treex', 'treebits', 'spec'), C('lexx', 'full', 'tie', only=('parse',)), C('servex', 'c03', 'tie'), C('historyx', 'c03', 'tie')]),
     'C04': dict(suites=[('validate', 3000, 100000), ('names', 300, 20000), ('lex', 1000, 20000), ('validatex', 2, 3), ('lexx', 3, 4)],
                 cmps=[C('validate', 'accept', 'spec'), C('names', 'full', 'tie'), C('lex', 'full', 'tie', only=('pattern',)), C('validatex', 'accept', 'spec'), C('lexx', 'full', 'tie', only=('pattern',))]),
     'C05': dict(suites=[('validate', 6000, 150000), ('validatex', 2, 3)], cmps=[C('validate', 'full', 'spec'), C('validatex', 'full', 'spec')]),
-    'C06': dict(suites=[('roundtrip', 1500, 60000), ('history', 150, 4000), ('validate', 2000, 50000), ('treex', 3, 4)],
-                cmps=[C('roundtrip', 'full', 'spec'), C('history', 'dec', 'tie'), C('validate', 'full', 'tie'), C('treex', 'full', 'tie')]),
+    'C06': dict(suites=[('roundtrip', 1500, 60000), ('history', 150, 4000), ('validate', 2000, 50000), ('treex', 3, 4), ('historyx', 3, 4)],
+                cmps=[C('roundtrip', 'full', 'spec'), C('history', 'dec', 'tie'), C('validate', 'full', 'tie'), C('treex', 'full', 'tie'), C('historyx', 'dec', 'tie')]),
     # the adversarial history (in-place writes to Config() results and to the Config passed in) checks "never mutated after publication"
     'C07': dict(suites=[('schedule', 250, 6000), ('stress', 6, 20), ('history', 100, 2000, ('-adversarial',))],
                 cmps=[C('schedule', 'full', 'spec'), C('stress', 'full', 'spec'), C('history', 'dec', 'spec')]),
     # "rejected" presupposes that invalid configurations are rejected: acceptance over the exhaustive single-field configurations
-    'C08': dict(suites=[('history', 250, 6000), ('validatex', 2, 3)], cmps=[C('history', 'dec', 'spec'), C('validatex', 'accept', 'spec')]),
+    'C08': dict(suites=[('history', 250, 6000), ('validatex', 2, 3), ('historyx', 3, 4)], cmps=[C('history', 'dec', 'spec'), C('validatex', 'accept', 'spec'), C('historyx', 'dec', 'spec')]),
     # the diagnostics of every failing step, on the broad single-request generator as well as inside histories
-    'C09': dict(suites=[('history', 250, 6000), ('pairs09', 3000, 100000), ('serve', 4000, 100000), ('servex', 1, 2)],
-                cmps=[C('history', 'dec', 'spec'), C('pairs09', 'full', 'spec'), C('serve', 'dec', 'spec'), C('servex', 'dec', 'spec')]),
+    'C09': dict(suites=[('history', 250, 6000), ('pairs09', 3000, 100000), ('serve', 4000, 100000), ('servex', 1, 2), ('historyx', 3, 4)],
+                cmps=[C('history', 'dec', 'spec'), C('pairs09', 'full', 'spec'), C('serve', 'dec', 'spec'), C('servex', 'dec', 'spec'), C('historyx', 'dec', 'spec')]),
     # second pairs10 run: wrapped handlers that overwrite in place whatever the middleware installed (a shared slice handed out
     # once poisons the Vary of every later response of the process)
     'C10': dict(suites=[('serve', 5000, 120000), ('pairs10', 5000, 150000), ('pairs10', 2500, 50000, ('-adversarial',)), ('servex', 1, 2)], cmps=[C('serve', 'vary', 'tie'), C('pairs10', 'full', 'spec'), C('servex', 'vary', 'tie')]),
     # histories: "a configured middleware" is a state, and handlers wrapped before a reconfiguration must follow it
-    'C11': dict(suites=[('serve', 6000, 150000), ('history', 120, 3000), ('servex', 1, 2), ('schedule', 100, 2500)], cmps=[C('serve', 'c11', 'spec'), C('history', 'c11', 'spec'), C('servex', 'c11', 'spec'), C('schedule', 'full', 'spec')]),
+    'C11': dict(suites=[('serve', 6000, 150000), ('history', 120, 3000), ('servex', 1, 2), ('schedule', 100, 2500), ('historyx', 3, 4)], cmps=[C('serve', 'c11', 'spec'), C('history', 'c11', 'spec'), C('servex', 'c11', 'spec'), C('schedule', 'full', 'spec'), C('historyx', 'c11', 'spec')]),
     'C12': dict(suites=[('history', 150, 4000, ('-adversarial',)), ('serve', 2000, 50000, ('-adversarial',))],
                 cmps=[C('history', 'dec', 'spec'), C('serve', 'dec', 'spec')]),
     'C13': dict(suites=[('lex', 4000, 150000), ('lexx', 3, 4), ('ip6x', 3, 4), ('validatex', 2, 3)], cmps=[C('ip6x', 'full', 'tie', only=('pattern',)), C('ip6x', 'full', 'tie', only=('parse',)),
@@ -463,16 +464,16 @@ PROPS = {
     'C15': dict(suites=[('twins', 4000, 150000), ('validate', 2000, 50000), ('tree', 800, 30000), ('treex', 3, 4)],
                 cmps=[C('twins', 'full', 'spec'), C('validate', 'full', 'tie'), C('tree', 'treebits', 'spec'), C('treex', 'treebits', 'spec')]),
     # "debug off" is a state of the documented state machine (C09): histories belong to the check
-    'C16': dict(suites=[('serve', 8000, 200000), ('history', 150, 4000), ('servex', 1, 2)], cmps=[C('serve', 'c16', 'tie'), C('history', 'c16h', 'tie'), C('servex', 'c16', 'tie')]),
+    'C16': dict(suites=[('serve', 8000, 200000), ('history', 150, 4000), ('servex', 1, 2), ('historyx', 3, 4)], cmps=[C('serve', 'c16', 'tie'), C('history', 'c16h', 'tie'), C('servex', 'c16', 'tie'), C('historyx', 'c16h', 'tie')]),
     'C17': dict(suites=[('lex', 1000, 30000), ('tree', 500, 20000), ('acrh', 1000, 30000), ('validate', 1500, 50000),
-                        ('serve', 2000, 60000), ('errors', 50, 1000), ('history', 50, 1000), ('lexx', 3, 4), ('acrhx', 4, 5), ('treex', 3, 4), ('validatex', 2, 3), ('servex', 1, 2), ('ip6x', 3, 4)],
-                cmps=[C(s, 'panic', 'spec') for s in ('lex', 'tree', 'acrh', 'validate', 'serve', 'errors', 'history', 'lexx', 'acrhx', 'treex', 'validatex', 'servex', 'ip6x')]),
+                        ('serve', 2000, 60000), ('errors', 50, 1000), ('history', 50, 1000), ('lexx', 3, 4), ('acrhx', 4, 5), ('treex', 3, 4), ('validatex', 2, 3), ('servex', 1, 2), ('ip6x', 3, 4), ('historyx', 3, 4)],
+                cmps=[C(s, 'panic', 'spec') for s in ('lex', 'tree', 'acrh', 'validate', 'serve', 'errors', 'history', 'lexx', 'acrhx', 'treex', 'validatex', 'servex', 'ip6x', 'historyx')]),
     'C18': dict(suites=[('allocs', 1, 2), ('serve', 1000, 20000)], cmps=[C('allocs', 'full', 'spec'), C('serve', 'dec', 'tie')], level='other',
                 explanation='PARTIAL (category other): a Lean cost-model theorem (at most 4 allocating header primitives per request, independent of all sizes), '
                             'regenerated loop/install facts proved by decide (no allocating construct and only allow-listed callees inside loops on the request path), and measured conformance: '
                             'testing.AllocsPerRun around ServeHTTP for 56 families (4 configuration kinds x debug x 7 request kinds) at sizes 1 B .. 100 000 (thorough: .. 1 MiB); '
                             'the count must not grow within a family and must stay <= 8. Escape analysis and the runtime are outside any model; the measurement is what ties the claim to the code.'),
-    'C19': dict(suites=[('errors', 150, 5000), ('validate', 2000, 50000), ('validatex', 2, 3), ('history', 100, 2500)], cmps=[C('errors', 'full', 'spec'), C('validate', 'errcount', 'spec'), C('validatex', 'errcount', 'spec'), C('history', 'full', 'spec', only=('h.new', 'h.reconf'))]),
+    'C19': dict(suites=[('errors', 150, 5000), ('validate', 2000, 50000), ('validatex', 2, 3), ('history', 100, 2500), ('historyx', 3, 4)], cmps=[C('errors', 'full', 'spec'), C('validate', 'errcount', 'spec'), C('validatex', 'errcount', 'spec'), C('history', 'full', 'spec', only=('h.new', 'h.reconf')), C('historyx', 'full', 'spec', only=('h.new', 'h.reconf'))]),
 }
 
 
